@@ -255,50 +255,57 @@ theorem model_meets_spec (conv : Kind → Nat → Option Nat) (shared : Bool) (k
 
 /-! #### Table.__setitem__ -/
 
-/-- Table atomicity, as far as the present code has it: a failed table assignment leaves the
-    table untouched unless at least two columns are addressed and the first addressed column
-    accepted its write.  In particular nothing is written when the key is malformed, a column is
-    not found, the value cannot be consumed, shapes disagree, a single column is addressed
-    (cell and column assignment), or the first addressed column refuses.
-    FULL STATEMENT (not provable, see `table_atomic_counterexample`):
-      (tsetitem P conv key value t).1 = some e → (tsetitem P conv key value t).2 = t -/
-theorem table_atomic_partial (P : Kind → Kind → Bool) (conv : Kind → Nat → Option Nat)
+/-- **Table atomicity**: a failed table assignment — malformed key, column not found, value that cannot be consumed,
+    shapes that disagree, or ANY addressed column refusing its write, the first or a later one — leaves the table exactly
+    as it was: every column's contents, dtype, name and memo. -/
+theorem table_atomic (P : Kind → Kind → Bool) (conv : Kind → Nat → Option Nat)
     (key : TKey) (value : TValue) (t : TState) (e : Err)
     (h : (tsetitem P conv key value t).1 = some e) :
-    (tsetitem P conv key value t).2 = t ∨
-    ∃ row ci v rest j col, rest ≠ [] ∧
-      plan (t.cols.map (·.name)) t.cols.length key value = .ok (row, (ci, v) :: rest) ∧
-      tupleIndex t.cols.length ci = some j ∧ t.cols[j]? = some col ∧
-      (setitem P conv false row v col).1 = none := by
+    (tsetitem P conv key value t).2 = t := by
   unfold tsetitem at h ⊢
   cases hp : plan (t.cols.map (·.name)) t.cols.length key value with
-  | error e' => left; rfl
+  | error e' => rfl
   | ok rw =>
     obtain ⟨row, ws⟩ := rw
     simp only [hp] at h ⊢
-    cases ws with
-    | nil => simp [writeCols] at h
-    | cons w rest =>
-      obtain ⟨ci, v⟩ := w
-      rcases writeCols_head_fail P conv row ci v rest t with ⟨j, col, col', hi, hc, hs, hw⟩ | ⟨e', he⟩
-      · by_cases hr : rest = []
-        · subst hr; rw [hw] at h; simp [writeCols] at h
-        · right
-          exact ⟨row, ci, v, rest, j, col, hr, rfl, hi, hc, by rw [hs]⟩
-      · left; rw [he]
+    cases hw : writeCols P conv row ws t with
+    | mk r t' =>
+      rw [hw] at h
+      cases r with
+      | some e' => rfl
+      | none => simp at h
 
-/-- the present code is not atomic on multi-column writes (known finding
-    `C08/table-setitem-partial-write`): `t[0] = [9, 5]` on an int and a str column raises
-    SerifTypeError after the int column was written -/
-theorem table_atomic_counterexample :
+/-- a successful table assignment is the column loop: every addressed column gets its vector assignment, in order -/
+theorem table_ok_is_column_loop (P : Kind → Kind → Bool) (conv : Kind → Nat → Option Nat)
+    (key : TKey) (value : TValue) (t t' : TState)
+    (h : tsetitem P conv key value t = (none, t')) :
+    ∃ row ws, plan (t.cols.map (·.name)) t.cols.length key value = .ok (row, ws) ∧
+      writeCols P conv row ws t = (none, t') := by
+  unfold tsetitem at h
+  cases hp : plan (t.cols.map (·.name)) t.cols.length key value with
+  | error e' => rw [hp] at h; cases h
+  | ok rw =>
+    obtain ⟨row, ws⟩ := rw
+    simp only [hp] at h
+    cases hw : writeCols P conv row ws t with
+    | mk r t'' =>
+      rw [hw] at h
+      cases r with
+      | some e' => cases h
+      | none => cases h; exact ⟨row, ws, rfl, hw⟩
+
+/-- why the wrapper is needed (the defect repaired in /repo ff19998): the column loop by itself is not atomic —
+    `t[0] = [9, 5]` on an int and a str column fails at the second column after the first was written -/
+theorem column_loop_alone_not_atomic :
     let a : VState := ⟨[⟨.ty .int, 1⟩, ⟨.ty .int, 2⟩], some ⟨.int, false⟩, some 1, none⟩
     let b : VState := ⟨[⟨.ty .str, 3⟩, ⟨.ty .str, 4⟩], some ⟨.str, false⟩, some 2, none⟩
     let nine : Value := .scalar ⟨.ty .int, 9⟩
     let five : Value := .scalar ⟨.ty .int, 5⟩
-    let out := tsetitem genP (fun _ _ => none) (.single (.int 0))
+    let loop := writeCols genP (fun _ _ => none) (.int 0) [(0, nine), (1, five)] ⟨[a, b]⟩
+    let whole := tsetitem genP (fun _ _ => none) (.single (.int 0))
       (.iter .listOrTuple ⟨.ty .list, 7⟩ [nine, five] false none) ⟨[a, b]⟩
-    out.1 = some .type ∧ out.2 ≠ ⟨[a, b]⟩ ∧
-      out.2 = ⟨[{ a with data := [⟨.ty .int, 9⟩, ⟨.ty .int, 2⟩] }, b]⟩ := by
+    loop.1 = some .type ∧ loop.2 = ⟨[{ a with data := [⟨.ty .int, 9⟩, ⟨.ty .int, 2⟩] }, b]⟩ ∧
+      whole = (some .type, ⟨[a, b]⟩) := by
   decide +kernel
 
 /-- whatever the outcome, a table assignment keeps the number of columns, every column's length
@@ -309,7 +316,12 @@ theorem table_shape_preserved (P : Kind → Kind → Bool) (conv : Kind → Nat 
   unfold tsetitem
   split
   · rfl
-  · exact writeCols_shape P conv _ _ t
+  · rename_i row ws _
+    have := writeCols_shape P conv row ws t
+    cases hw : writeCols P conv row ws t with
+    | mk r t' =>
+      rw [hw] at this
+      cases r <;> simp_all
 
 /-- … and changes addressed columns only (within them, `untouched_cells` applies to each write) -/
 theorem table_untouched_columns (P : Kind → Kind → Bool) (conv : Kind → Nat → Option Nat)
@@ -321,7 +333,11 @@ theorem table_untouched_columns (P : Kind → Kind → Bool) (conv : Kind → Na
   split
   · rfl
   · rename_i row ws hp
-    exact writeCols_untouched P conv row ws t j (h row ws hp)
+    have := writeCols_untouched P conv row ws t j (h row ws hp)
+    cases hw : writeCols P conv row ws t with
+    | mk r t' =>
+      rw [hw] at this
+      cases r <;> simp_all
 
 /-! #### Table.rename_columns -/
 
